@@ -225,6 +225,11 @@ func (s *Server) handleValidate(next http.Handler) http.Handler {
 			"source=", getSourceName(r),
 			"key=", getKey(r),
 		)
+		if src := getSourceName(r); src != "" && !isSafeSourceName(src) {
+			log.Debug("STS request rejected: unsafe source name")
+			w.WriteHeader(http.StatusBadRequest)
+			return
+		}
 		gateKeeper := s.getGateKeeper(r)
 		if gateKeeper == nil {
 			log.Debug("STS request rejected: missing gatekeeper")
@@ -381,6 +386,44 @@ func isSubpath(base, target string) bool {
 	return strings.HasPrefix(target, base)
 }
 
+// isLocalName reports whether a file name taken from a request stays inside
+// the directory it is going to be joined to (no parent-directory segments, not
+// absolute, not empty).
+func isLocalName(name string) bool {
+	return filepath.IsLocal(name)
+}
+
+// partsAreLocal checks every name a payload header can carry: the file name
+// and, when given, the predecessor and the rename target.
+func partsAreLocal(parts []sts.Binned) bool {
+	for _, part := range parts {
+		if !isLocalName(part.GetName()) {
+			return false
+		}
+		if prev := part.GetPrev(); prev != "" && !isLocalName(prev) {
+			return false
+		}
+		if renamed := part.GetRenamed(); renamed != "" && !isLocalName(renamed) {
+			return false
+		}
+	}
+	return true
+}
+
+// isSafeSourceName rejects source names that would resolve to the parent of
+// (or to) the per-source root directories.  Path separators inside a source
+// name are fine: they are replaced when the directory name is built.
+func isSafeSourceName(source string) bool {
+	for _, segment := range strings.FieldsFunc(source, func(r rune) bool {
+		return r == '/' || r == '\\'
+	}) {
+		if segment == "." || segment == ".." {
+			return false
+		}
+	}
+	return source != "" && !strings.ContainsRune(source, 0)
+}
+
 func sanitizePathSegment(value string) (string, error) {
 	if value == "" || !safePathSegmentRe.MatchString(value) {
 		return "", fmt.Errorf("invalid path segment: %s", value)
@@ -484,6 +527,11 @@ func (s *Server) routeValidate(w http.ResponseWriter, r *http.Request) {
 		if sep != "" {
 			f.Name = filepath.Join(strings.Split(f.Name, sep)...)
 		}
+		if !isLocalName(f.Name) {
+			log.Debug("STS validate request rejected: non-local file name")
+			w.WriteHeader(http.StatusBadRequest)
+			return
+		}
 		respMap[f.Name] = gateKeeper.GetFileStatus(f.GetName(), f.GetStarted())
 	}
 	respJSON, _ := json.Marshal(respMap)
@@ -535,6 +583,11 @@ func (s *Server) routeData(w http.ResponseWriter, r *http.Request) {
 		return
 	}
 	parts := decoder.GetParts()
+	if !partsAreLocal(parts) {
+		log.Debug("STS data request rejected: non-local file name")
+		w.WriteHeader(http.StatusBadRequest)
+		return
+	}
 	gateKeeper := s.getGateKeeper(r)
 	gateKeeper.Prepare(parts)
 	index := 0
@@ -611,6 +664,11 @@ func (s *Server) routeDataRecovery(w http.ResponseWriter, r *http.Request) {
 	}
 	gateKeeper := s.getGateKeeper(r)
 	parts := decoder.GetParts()
+	if !partsAreLocal(parts) {
+		log.Debug("STS data-recovery request rejected: non-local file name")
+		w.WriteHeader(http.StatusBadRequest)
+		return
+	}
 	n := gateKeeper.Received(parts)
 	log.Debug("STS data-recovery request complete:", "source=", source, "partsReceived=", n)
 	w.Header().Add(HeaderPartCount, strconv.Itoa(n))
